@@ -1,6 +1,8 @@
 """C11 — no data race in any parallel region, for any thread count or schedule."""
 LEVEL = "proof"
-RULE = ("(T) tools/omp_extract.py regenerates lean/Generated/Sched.lean from the C++ of twelve kernel-dispatch parallel regions "
+RULE = ("(T2) tools/omp_owner.py regenerates lean/Generated/Owner.lean (+ OwnerSep.lean with one omega-proved separation lemma per region) from the 36 "
+        "other parallel regions, which must be in owner-computes form (pinned list tools/owner_expected.json); C11o.owner_regions_race_free covers them for every shape.  "
+        "(T) tools/omp_extract.py regenerates lean/Generated/Sched.lean from the C++ of twelve kernel-dispatch parallel regions "
         "(residual give/take, four smoothers, both direct-solver assemblies, four smoother-matrix assemblies: 72 work-sharing loops) "
         "on every run; the theorems of Props/C11.lean unfold these generated terms, so a changed stride / start / nowait / barrier "
         "changes the term and the proof no longer checks; (F) the hand-written kernel footprints the theorems quantify over are compared with the "
@@ -26,10 +28,28 @@ def run(ctx):
         for f in gen["reductions"]:
             if f["parallel"] and f["fn"] in ("dot_product", "l1_norm", "l2_norm_squared", "infinity_norm") and not f["reduction"]:
                 ctx.failing.append({"stage": "translator", "what": f"ORACLE C11 {f['fn']}: the accumulator of the parallel loop is not in a reduction clause", "seed": ctx.seed})
-    ctx.prove()
+    # second translator: every other `#pragma omp parallel` region must be in owner-computes form (Generated/Owner.lean + OwnerSep.lean)
+    r2 = subprocess.run(["python3", os.path.join(ROOT, "tools", "omp_owner.py")], capture_output=True, text=True)
+    try:
+        info = json.loads(r2.stdout.strip().splitlines()[-1])
+    except Exception:
+        info = None
+    if info is None or r2.returncode not in (0, 3):
+        ctx.broken.append(("translator omp_owner.py failed", (r2.stdout + r2.stderr)[-2000:]))
+    else:
+        ctx.cov["owner_translator"] = info
+        og = json.load(open(os.path.join(ROOT, "lean", "Generated", "Owner.json")))
+        ctx.cov["owner_regions_modelled"] = [x["id"] for x in og["regions"]]
+        ctx.cov["parallel_regions_in_no_model"] = [dict(id=x["id"], reason=x["reason"]) for x in og["rejected"]]
+        if info["missing_expected"]:
+            why = {x["id"]: x["reason"] for x in og["rejected"]}
+            ctx.broken.append(("translator omp_owner.py: parallel regions left the owner-computes form: " + ", ".join(info["missing_expected"]),
+                               "\n".join(f"{k}: {why.get(k, 'region no longer present')}" for k in info["missing_expected"])))
+    ctx.prove(extra_modules=("GMGProofs.Props.C11o",))
     # search of the regenerated schedule for a concrete conflict (also the replay when the proof breaks)
     bounds = ("10", "20") if ctx.tier == "quick" else ("14", "28")
     ctx.pipe(["true"], f"sched {bounds[0]} {bounds[1]}", label="schedule-search")
+    ctx.pipe(["true"], "owner 8 16" if ctx.tier == "quick" else "owner 14 32", label="owner-regions-search")
     # footprint tie: every kernel of the twelve regions (vector kernels and matrix assemblies) is called once per line and colour on the real
     # classes; observed writes / reads must lie inside the model's footprints, and the generated schedule is searched for a
     # conflict on the OBSERVED footprints
@@ -43,8 +63,10 @@ def run(ctx):
                         "classes they are checked against the real member functions on every run (h_foot: one call per kernel x line x colour on random "
                         "backgrounds, written cells by change detection, read cells by single-cell perturbation; observed ⊆ model); a write that stores "
                         "the value already present on both random backgrounds would go unobserved",
-                        "36 further `parallel for` / owner-computes regions (transfers, level caches, rhs, vector kernels, exact error) are outside the schedule "
-                        "model; they are covered by the ThreadSanitizer runs only"]
+                        "the 36 other parallel regions (transfers, injection, FMG interpolation, level caches, rhs, exact error, extrapolated residual, vector "
+                        "kernels, reductions, container loops) are modelled by the syntactic owner-computes analysis of tools/omp_owner.py: what is trusted there is "
+                        "the translator's recognition of stores (`A[idx] op=`; a stored array may not occur unsubscripted, no reference may be bound to an element) "
+                        "and that calls inside a loop body do not write shared arrays they are not handed; ThreadSanitizer (thorough tier) is the dynamic check of that"]
 
 
 def tsan(ctx):
